@@ -542,7 +542,7 @@ Qed.
 
 (* everything about the enumeration, with the slots exposed *)
 Lemma b_all_variants_main : forall ms s,
-  wf_space ms -> member ms s -> (forall c, In c (choices_list ms) -> cend c <= zlen s) ->
+  wf_choices ms -> member ms s -> (forall c, In c (choices_list ms) -> cend c <= zlen s) ->
   multichoices ms <> [] ->
   exists vs, all_variants ms s = Some vs /\
     NoDup vs /\
@@ -551,7 +551,7 @@ Lemma b_all_variants_main : forall ms s,
     zlen vs = space_size_exact ms.
 Proof.
   intros ms s Hwf Hmem Hend Hne.
-  destruct Hwf as (W1 & W2 & _ & _).
+  destruct Hwf as (W1 & W2).
   unfold member in Hmem. rewrite Forall_forall in W1, Hmem.
   assert (Hsub : forall c, In c (multichoices ms) -> In c (choices_list ms)).
   { intros c Hc. unfold multichoices in Hc. apply filter_In in Hc. tauto. }
@@ -592,9 +592,9 @@ Proof.
 Qed.
 
 Lemma b_variant_member ms s t :
-  wf_space ms -> member ms s -> is_variant_of ms s t -> member ms t.
+  wf_choices ms -> member ms s -> is_variant_of ms s t -> member ms t.
 Proof.
-  intros Hwf Hmem Hv. destruct Hwf as (W1 & W2 & _ & _).
+  intros Hwf Hmem Hv. destruct Hwf as (W1 & W2).
   destruct Hv as (V1 & V2 & V3).
   unfold member in *. rewrite Forall_forall in *. intros c Hc.
   destruct (2 <=? nvariants c) eqn:E.
@@ -612,7 +612,7 @@ Proof.
 Qed.
 
 Theorem all_variants_spec : forall ms s,
-  wf_space ms -> member ms s -> (forall c, In c (choices_list ms) -> cend c <= zlen s) ->
+  wf_choices ms -> member ms s -> (forall c, In c (choices_list ms) -> cend c <= zlen s) ->
   multichoices ms <> [] ->
   exists vs, all_variants ms s = Some vs /\
     NoDup vs /\
@@ -629,7 +629,7 @@ Qed.
 
 (* outside the span (first multichoice start .. last multichoice end) nothing changes *)
 Theorem all_variants_outside_span : forall ms s vs a b t i,
-  wf_space ms -> member ms s -> (forall c, In c (choices_list ms) -> cend c <= zlen s) ->
+  wf_choices ms -> member ms s -> (forall c, In c (choices_list ms) -> cend c <= zlen s) ->
   all_variants ms s = Some vs -> choices_span ms = Some (a, b) -> In t vs ->
   0 <= i -> ~ (a <= i < b) -> nth_error t (Z.to_nat i) = nth_error s (Z.to_nat i).
 Proof.
@@ -640,7 +640,7 @@ Proof.
   rewrite Hall in H1. inversion H1; subst vs'.
   apply H4 in Hin. destruct Hin as (_ & _ & V3). apply V3. exact Hi.
   intros c Hc Hseg. apply Hout.
-  destruct Hwf as (W1 & W2 & _ & _).
+  destruct Hwf as (W1 & W2).
   assert (Hss : StronglySorted ch_lt (multichoices ms)).
   { unfold multichoices. apply b_ss_filter. exact W2. }
   assert (Hpos : Forall (fun c => cstart c < cend c) (multichoices ms)).
